@@ -8,6 +8,7 @@ property channel in {none, d_norm, esp}.  Oracle: deviation from the reference p
 calibrated bounds that shrinks with l_max; the radial function solves the isovalue equation (re-evaluated
 through the batch path); surfaces outside the search bounds raise ValueError.
 """
+from mc.paths import TEST_FILES
 import itertools
 import math
 
@@ -286,7 +287,7 @@ def crystal_worker(part, job):
     from chmpy.crystal import Crystal, UnitCell
 
     fname, L, api, ri, seed = job
-    c0 = Crystal.load("/repo/src/chmpy/tests/test_files/" + fname)
+    c0 = Crystal.load(TEST_FILES + fname)
     Q = [rot((1, 2, 3), 0.7 + 0.13 * seed), rot((0, 0, 1), math.pi / 2), rot((-2, 1, 0.5), 2.1)][ri]
     c1 = Crystal(UnitCell(np.asarray(c0.unit_cell.direct) @ Q.T), c0.space_group, c0.asymmetric_unit)
     c0 = Crystal(UnitCell(np.asarray(c0.unit_cell.direct).copy()), c0.space_group, c0.asymmetric_unit)
